@@ -1,14 +1,21 @@
 """Structural facts about a case, used by the known-finding triggers."""
-from vf import ir as irm
+from vf import universe
 
 
 def graph_facts(ctx, kind='', detail=''):
   built = ctx.built
-  try:
-    modes, io = ctx.modes
-  except Exception:
-    modes, io = None, None
-  f = {'types': [m.type for m in built.ops[0]],
-       'variants': [m.variant for m in built.ops[0]],
-       'modes': modes, 'io': io, 'kind': kind, 'detail': str(detail)[:300]}
-  return f
+  types, variants, modes = [], [], []
+  io = None
+  for si in range(len(built.ops)):
+    try:
+      m, i = (ctx.modes if si == 0 else
+              universe.resolved_modes(built, ctx.recipe, si))
+    except Exception:
+      m, i = [None] * len(built.ops[si]), None
+    if si == 0:
+      io = i
+    types += [o.type for o in built.ops[si]]
+    variants += [o.variant for o in built.ops[si]]
+    modes += list(m)
+  return {'types': types, 'variants': variants, 'modes': modes, 'io': io,
+          'kind': kind, 'detail': str(detail)[:300]}
